@@ -139,7 +139,13 @@ impl Args {
     /// `q` cases in the quick tier, `t` in the thorough tier (search mode: thorough).
     pub fn budget(&self, q: usize, t: usize) -> usize {
         if self.thorough() || self.search {
-            t
+            // VERIF_SCALE=<n> multiplies the thorough budget for a soak run (default 1).
+            let scale = std::env::var("VERIF_SCALE")
+                .ok()
+                .and_then(|v| v.parse::<usize>().ok())
+                .unwrap_or(1)
+                .max(1);
+            t.saturating_mul(scale)
         } else {
             q
         }
